@@ -227,6 +227,15 @@ EXTRA = [
      "inputs": {"t.go": b"package x\n\nfunc do() {\n\tif x {\n\t\ta()\n\t\tb()\n\t\tfoo(1, 2)\n\t}\n}\n"}},
 ]
 
+EXTRA += [
+    {"name": "x_unary_context", "patches": [("p.patch", b"@@\nvar a, b expression\n@@\n foo(a,\n-  1,\n+  2,\n   -b)\n")],
+     "inputs": {"t.go": b"package x\n\nfunc do() {\n\tfoo(p, 1, -q)\n\tfoo(p, 1, q)\n\tfoo(p, 2, -q)\n}\n"}},
+    {"name": "x_plus_context", "patches": [("p.patch", b"@@\nvar a expression\n@@\n-old(a,\n+new(a,\n   +1,\n   -2)\n")],
+     "inputs": {"t.go": b"package x\n\nfunc do() {\n\told(p, +1, -2)\n\told(p, 1, 2)\n}\n"}},
+    {"name": "x_unary_stmt_context", "patches": [("p.patch", b"@@\nvar v identifier\n@@\n v :=\n   -limit\n-use(v)\n+used(v)\n")],
+     "inputs": {"t.go": b"package x\n\nfunc do() {\n\tn := -limit\n\tuse(n)\n\tm := limit\n\tuse(m)\n}\n"}},
+]
+
 TRANSFORMS = [("comments", t_comments), ("blank", t_blank), ("name", t_name), ("rename", t_rename), ("regroup", t_regroup),
               ("respace", t_respace), ("rewrap", t_rewrap), ("context-pair", t_context_pair), ("widen", t_widen)]
 
